@@ -49,6 +49,7 @@ TetSeed(k) ==
                            K("add_edge", 4, 5, <<>>, FALSE), FV(<<5, 6, 7>>) >>           \* rotations; dangling edge and face
     [] k = 9 -> NV(6) \o << T4(<<0, 1, 2, 3>>), T4(<<0, 1, 3, 4>>), T4(<<0, 1, 4, 5>>), TVc(<<0, 1, 5, 2>>) >> \* ring of 4
     [] k = 10 -> NV(8) \o << T4(<<0, 1, 2, 3>>), TVc(<<1, 2, 3, 4>>), T4(<<0, 5, 6, 7>>) >>  \* face-glued pair + one at a vertex
+    [] k = 11 -> NV(10) \o << T4(<<0, 1, 2, 3>>), FV(<<4, 5, 6>>), FV(<<7, 8, 9>>) >>      \* one tet and two dangling triangles
     [] k >= 20 -> KuhnSeed(k)
 
 (* ------------------------------ hex seeds ------------------------------ *)
@@ -134,7 +135,11 @@ XCallsOf(st, op, key) ==
          \cup {KLF("tet_add_cell_v", Rev(SortedSeq(S)), TRUE) : S \in {T \in KSub(4, FirstN(LiveV(st), 6)) : TetFreeToAdd(st, Rev(SortedSeq(T)))}}
     [] op = "add_cell4" ->              \* halfface lists for the tetrahedral add_cell: all closed ones, and open / wrong-valence ones
          {KLF("add_cell", SortedSeq(S), TRUE) : S \in KSub(4, FreeHF(st)) \cup KSub(3, FirstN(FreeHF(st), 6)) \cup KSub(5, FirstN(FreeHF(st), 6))}
-         \cup {KLF("add_cell", Rev(SortedSeq(S)), FALSE) : S \in {T \in KSub(4, FreeHF(st)) : ClosedSurface(st, SortedSeq(T))}}
+         (* without topology check only lists that do describe a tetrahedron (the caller's obligation) *)
+         \cup {KLF("add_cell", Rev(SortedSeq(S)), FALSE) : S \in {T \in KSub(4, FreeHF(st)) :
+                   /\ ClosedSurface(st, SortedSeq(T))
+                   /\ \A h \in T : Len(At(st.faces, Full(h))) = 3
+                   /\ Cardinality(UNION {Rng(HFVerts(st, h)) : h \in T}) = 4}}
     [] op = "add_face3" ->
          {KLF("add_face", l, TRUE) : l \in SeqsUpTo(FirstN(LiveHE(st), 12), 3) \ {<<>>}}
          \cup {KLF("add_face", l, FALSE) : l \in {l \in [1 .. 3 -> LiveHE(st)] : ClosedLoop(st, l)}}
